@@ -208,6 +208,32 @@ Proof.
 Qed.
 Print Assumptions C16_old_sshsig_cert_type_matches_use_refuted.
 
+(* The SSHSIG signed data depends only on the message BYTES: bytes or a path, and for a path
+   however the reads are split into bursts (regular file, FIFO, large file), give the same data. *)
+Theorem C16_sshsig_message_source_independent : forall hash s s' hname nsb,
+  source_bytes s = source_bytes s' ->
+  signed_data_src hash s false hname nsb = signed_data_src hash s' false hname nsb.
+Proof. exact signed_data_src_bytes. Qed.
+Print Assumptions C16_sshsig_message_source_independent.
+
+Theorem C16_sshsig_path_chunking_irrelevant : forall hash chunks chunks' ih ih' hname nsb,
+  concat chunks = concat chunks' ->
+  signed_data_src hash (MPath chunks) ih hname nsb = signed_data_src hash (MPath chunks') ih' hname nsb.
+Proof. exact signed_data_path_chunking. Qed.
+Print Assumptions C16_sshsig_path_chunking_irrelevant.
+
+(* Allowed-signers principals and namespaces are matched case-SENSITIVELY: a pattern without
+   wildcards matches exactly itself (all code points; no case folding, trimming or normalisation). *)
+Theorem C16_pattern_literal_exact : forall p,
+  (forall c, In c p -> c <> 42 /\ c <> 63) -> forall s, wmatch p s = true <-> p = s.
+Proof. exact wmatch_literal. Qed.
+Print Assumptions C16_pattern_literal_exact.
+
+Example C16_pattern_case_example :
+  wmatch [97;108;105;99;101] [65;108;105;99;101] = false /\ wmatch [97;42] [65;108] = false /\
+  wmatch [97;42] [97;76] = true.
+Proof. vm_compute. repeat split; reflexivity. Qed.
+
 (* --- time values (misc.parse_time) ------------------------------------------------------------- *)
 
 (* A limit written with a trailing Z denotes that UTC instant whatever the process time zone is;
